@@ -207,6 +207,59 @@ def shadowing(ctx):
             ctx.fail("fold:shadowed-constant", f"firmware prints {fwv} where Python prints {pyv}: a parameter hides a module-level constant of the same name", {"script": src})
 
 
+def tracked_lists(ctx):
+    """straight-line list bookkeeping at transpile time: append / remove of present and ABSENT constants (the latter inside try/except,
+    a no-op in Python once the ValueError is caught), falsy elements, then folded len() and len()-based indexing"""
+    head = "from Reduino.Communication import SerialMonitor\nmon = SerialMonitor(9600)\n"
+    rng = ctx.rng
+    srcs = []
+    for _ in range(ctx.n(40, 400)):
+        xs = [rng.choice([0, 0, 1, 2, 3, 5, 8]) for _ in range(rng.randint(2, 5))]
+        lines = [f"xs = {xs}"]
+        cur = list(xs)
+        for _ in range(rng.randint(1, 5)):
+            k = rng.choice(["ap", "rm", "rmx", "len", "last"])
+            if k == "ap":
+                v = rng.choice([0, 4, 9])
+                cur.append(v)
+                lines.append(f"xs.append({v})")
+            elif k == "rm" and cur:
+                v = rng.choice(cur)
+                cur.remove(v)
+                lines.append(f"xs.remove({v})")
+            elif k == "rmx":
+                v = rng.choice([x for x in (6, 7, 11, 0) if x not in cur] or [13])
+                lines += ["try:", f"    xs.remove({v})", "except ValueError:", "    mon.write(99)"]
+            elif k == "last" and cur:
+                lines.append("mon.write(xs[len(xs) - 1])")
+            else:
+                lines.append("mon.write(len(xs))")
+        lines.append("mon.write(len(xs))")
+        srcs.append(head + "\n".join(lines) + "\n")
+    outs = [cxx.transpile(s) for s in srcs]
+    jobs = [(cpp, 0, "") for cpp, e in outs if cpp is not None]
+    it = iter(cxx.run_many(ctx, jobs))
+    for src, (cpp, exc) in zip(srcs, outs):
+        if cpp is None:
+            ctx.count("tracked-list:rejected")
+            continue
+        res = next(it)
+        ctx.case(src, nontrivial=True)
+        if res.compile_error or not res.ok:
+            ctx.count("tracked-list:does-not-compile-or-run")
+            continue
+        ev, err = pyoracle.run_script(src, 0)
+        if err is not None:
+            continue
+        # the firmware has no exceptions: the `except` body never runs there; compare everything else
+        pyv = [e[1] for e in ev if e[0] == "w" and e[1] != "99"]
+        fwv = [e[1] for e in pyoracle.fw_events(res.trace) if e[0] == "w" and e[1] != "99"]
+        ctx.cov["traces_validated_against_impl"] += 1
+        ctx.count("tracked-list")
+        if pyv != fwv:
+            ctx.fail("fold:tracked-list-straight-line", f"firmware prints {fwv} where Python prints {pyv} for straight-line list bookkeeping", {"script": src})
+
+
 def run(ctx: Ctx) -> int:
     ctx.prove(["Reduino.Props.C03"])
     common.fresh_import()
@@ -214,6 +267,7 @@ def run(ctx: Ctx) -> int:
     folded_delays(ctx)
     const_env(ctx)
     shadowing(ctx)
+    tracked_lists(ctx)
     lateinit.check(ctx, "fold:global-initialiser-order", 40, 400)
     ctx.cov["rule"] = ("(a) random name-free expressions + chained comparisons: model vs _eval_const vs Python eval; folded sleep() arguments vs firmware delays; "
                        "(b) random scripts over str/list names with len() fold sites, appends/removes, rebinding, branches decided by a run-time value, loops, main loop "
